@@ -207,8 +207,7 @@ def Rastrigin(arr: np.ndarray, seed: int = 0) -> float:
   z = np.matmul(_R(dim, seed, b"Q"), z)
   z = np.matmul(LambdaAlpha(10.0, dim), z)
   z = np.matmul(_R(dim, seed, b"R"), z)
-  return float(10 * (dim - np.sum(np.cos(2 * math.pi * z))) +
-               np.sum(z * z, axis=0))
+  return float(10 * (dim - np.sum(np.cos(2 * math.pi * z))) + np.sum(z * z))
 
 
 def BuecheRastrigin(arr: np.ndarray, seed: int = 0) -> float:
@@ -357,7 +356,7 @@ def Weierstrass(arr: np.ndarray, seed: int = 0) -> float:
   s = 0.0
   for i in range(dim):
     for k in range(k_order):
-      s += 0.5**k * math.cos(2 * math.pi * (3**k) * (z[i] + 0.5))
+      s += 0.5**k * math.cos(2 * math.pi * (3**k) * (z[i, 0] + 0.5))
 
   return float(10 * (s / dim - f0)**3) + 10 * Fpen(arr) / dim
 
@@ -375,7 +374,7 @@ def SchaffersF7(arr: np.ndarray, seed: int = 0) -> float:
 
   s_arr = np.zeros(dim - 1)
   for i in range(dim - 1):
-    s_arr[i] = float((z[i]**2 + z[i + 1]**2)**0.5)
+    s_arr[i] = float((z[i, 0]**2 + z[i + 1, 0]**2)**0.5)
   s = 0.0
   for i in range(dim - 1):
     s += s_arr[i]**0.5 + (s_arr[i]**0.5) * math.sin(50 * s_arr[i]**0.2)**2
@@ -396,7 +395,7 @@ def SchaffersF7IllConditioned(arr: np.ndarray, seed: int = 0) -> float:
 
   s_arr = np.zeros(dim - 1)
   for i in range(dim - 1):
-    s_arr[i] = float((z[i]**2 + z[i + 1]**2)**0.5)
+    s_arr[i] = float((z[i, 0]**2 + z[i + 1, 0]**2)**0.5)
   s = 0.0
   for i in range(dim - 1):
     s += s_arr[i]**0.5 + (s_arr[i]**0.5) * math.sin(50 * s_arr[i]**0.2)**2
@@ -558,7 +557,7 @@ def NegativeSphere(arr: np.ndarray, seed: int = 0) -> float:
   dim = len(arr)
   arr.shape = (dim, 1)
   z = np.matmul(_R(dim, seed, b"R"), arr)
-  return float(100 + np.sum(z * z) - 2 * (z[0]**2))
+  return float(100 + np.sum(z * z) - 2 * (z[0, 0]**2))
 
 
 def NegativeMinDifference(arr: np.ndarray, seed: int = 0) -> float:
